@@ -281,6 +281,9 @@ async fn child_loop(family: String, start: usize, end: usize, stride: usize, tho
             let _ = writeln!(o, "BEGIN {} {}", idx, input.len());
             let _ = o.flush();
         }
+        // the harness' own event log must not grow inside the measured window (its doubling at
+        // 65536 events is one 8 MiB allocation that would be charged to whatever input is running)
+        w.0.st.lock().unwrap().log.clear();
         let live0 = LIVE.load(Ordering::Relaxed);
         PEAK.store(live0, Ordering::Relaxed);
         MAXREQ.store(0, Ordering::Relaxed);
@@ -372,6 +375,46 @@ struct FamilyResult {
     max_ms: u128,
 }
 
+/// A timing verdict (wedged / slow) is only believed when it repeats with the input alone in a
+/// fresh child and a ten times longer limit: a loaded machine must not produce an alarm.
+fn confirm_stuck(exe: &std::path::Path, family: &str, idx: usize, thorough: bool, with_meta: bool) -> bool {
+    let mut child = match PCommand::new(exe)
+        .args(["--child", family, &idx.to_string(), &(idx + 1).to_string(), if thorough { "1" } else { "0" }, if with_meta { "1" } else { "0" }, "1"])
+        .stdout(Stdio::piped())
+        .stderr(Stdio::null())
+        .spawn()
+    {
+        Ok(c) => c,
+        Err(_) => return true,
+    };
+    let stdout = child.stdout.take().unwrap();
+    let (tx, rx) = std::sync::mpsc::channel::<String>();
+    std::thread::spawn(move || {
+        for l in BufReader::new(stdout).lines().flatten() {
+            if tx.send(l).is_err() {
+                break;
+            }
+        }
+    });
+    let t0 = std::time::Instant::now();
+    let mut stuck = true;
+    while t0.elapsed() < Duration::from_secs(30) {
+        match rx.recv_timeout(Duration::from_secs(1)) {
+            Ok(l) if l.starts_with("END ") => {
+                let ms: u128 = l.split(' ').nth(6).and_then(|s| s.parse().ok()).unwrap_or(0);
+                stuck = ms > 20_000;
+                break;
+            }
+            Ok(_) => {}
+            Err(std::sync::mpsc::RecvTimeoutError::Timeout) => {}
+            Err(std::sync::mpsc::RecvTimeoutError::Disconnected) => break,
+        }
+    }
+    let _ = child.kill();
+    let _ = child.wait();
+    stuck
+}
+
 fn run_family(family: &str, thorough: bool, with_meta: bool, total: usize, workers: usize) -> FamilyResult {
     let exe = std::env::current_exe().expect("exe");
     let mut hs = vec![];
@@ -423,7 +466,7 @@ fn run_family(family: &str, thorough: bool, with_meta: bool, total: usize, worke
                                     res.max_ms = res.max_ms.max(ms);
                                     *res.outcomes.entry(outcome).or_default() += 1;
                                     let mut v = verdict.clone();
-                                    if v == "ok" && ms > 2000 {
+                                    if v == "ok" && ms > 2000 && confirm_stuck(&exe, &family, idx, thorough, with_meta) {
                                         v = "slow-request".into();
                                     }
                                     if v != "ok" {
@@ -444,6 +487,12 @@ fn run_family(family: &str, thorough: bool, with_meta: bool, total: usize, worke
                             if let Some(idx) = current {
                                 let label = nth_input(&family, idx, thorough).map(|x| x.0).unwrap_or_default();
                                 res.inputs += 1;
+                                if !confirm_stuck(&exe, &family, idx, thorough, with_meta) {
+                                    *res.outcomes.entry("slow-under-load-but-completes-alone".into()).or_default() += 1;
+                                    next = idx + workers;
+                                    died = true;
+                                    break;
+                                }
                                 res.viol.push(Violation {
                                     key: format!("{}:wedged:{}", family, classify(&label)),
                                     desc: format!("input #{} ({}): no completion within 3 s of wall time; the proxy thread is stuck", idx, label),
